@@ -129,7 +129,7 @@ PROPS["C13"] = {
     "rule": "orders 0..=5, rates 0..=32, i32/i64/i128, arbitrary low-rate sequences sized to avoid overflow; contract violations in the correspondence stream",
 }
 PROPS["C05"] = {
-    "trusted_extra": ["Props/C03F.lean, Props/C04F.lean, Props/C05q.lean (QuantFl) and Props/C15F.lean take the standard model of floating-point arithmetic as a hypothesis (structure FlModel u: each + - x returns exact*(1+d), |d| <= u; FlModelU adds an absolute underflow term; FlModelX: representable exact results are returned exactly; max/min exact). That IEEE binary32/64 satisfies it with u = 2^-24 / 2^-53 absent overflow is assumed (Higham, Accuracy and Stability of Numerical Algorithms, Thm 2.2), not proved; the bit-level behaviour incl. NaN/inf is tied by the fbiquad correspondence over Lean Float32/Float, which trusts the Lean runtime's float primitives to be IEEE."],
+    "trusted_extra": ["Props/C03F.lean, Props/C04F.lean, Props/C05q.lean (QuantFl), Props/C15F.lean and Props/C15Fc.lean take the standard model of floating-point arithmetic as a hypothesis (structure FlModel u: each + - x returns exact*(1+d), |d| <= u; FlModelU adds an absolute underflow term; FlModelX: representable exact results are returned exactly; max/min exact). That IEEE binary32/64 satisfies it with u = 2^-24 / 2^-53 absent overflow is assumed (Higham, Accuracy and Stability of Numerical Algorithms, Thm 2.2), not proved; the bit-level behaviour incl. NaN/inf is tied by the fbiquad correspondence over Lean Float32/Float, which trusts the Lean runtime's float primitives to be IEEE."],
     "modules": ["C05", "C05q"],
     "families_exhaustive": ["num8_all"],
     "families": ["num"],
@@ -148,7 +148,7 @@ PROPS["C05"] = {
     "rule": "i8 macc: the complete (u, s) plane x limit pairs x e1 lattice (complete e1 range in thorough); i8 mul/div all pairs; wider types lattice + random",
 }
 PROPS["C03"] = {
-    "trusted_extra": ["Props/C03F.lean, Props/C04F.lean, Props/C05q.lean (QuantFl) and Props/C15F.lean take the standard model of floating-point arithmetic as a hypothesis (structure FlModel u: each + - x returns exact*(1+d), |d| <= u; FlModelU adds an absolute underflow term; FlModelX: representable exact results are returned exactly; max/min exact). That IEEE binary32/64 satisfies it with u = 2^-24 / 2^-53 absent overflow is assumed (Higham, Accuracy and Stability of Numerical Algorithms, Thm 2.2), not proved; the bit-level behaviour incl. NaN/inf is tied by the fbiquad correspondence over Lean Float32/Float, which trusts the Lean runtime's float primitives to be IEEE."],
+    "trusted_extra": ["Props/C03F.lean, Props/C04F.lean, Props/C05q.lean (QuantFl), Props/C15F.lean and Props/C15Fc.lean take the standard model of floating-point arithmetic as a hypothesis (structure FlModel u: each + - x returns exact*(1+d), |d| <= u; FlModelU adds an absolute underflow term; FlModelX: representable exact results are returned exactly; max/min exact). That IEEE binary32/64 satisfies it with u = 2^-24 / 2^-53 absent overflow is assumed (Higham, Accuracy and Stability of Numerical Algorithms, Thm 2.2), not proved; the bit-level behaviour incl. NaN/inf is tied by the fbiquad correspondence over Lean Float32/Float, which trusts the Lean runtime's float primitives to be IEEE."],
     "modules": ["C03", "C03F"],
     "families": ["biquad", "num", "fbiquad"],
     "n_quick": 150000, "n_thorough": 1500000,
@@ -168,7 +168,7 @@ PROPS["C03"] = {
     "rule": "all widths, N in {4,5,2}, coefficient styles (arbitrary, integrator, double integrator, identity), fed-back histories, accumulator-overflow cases",
 }
 PROPS["C04"] = {
-    "trusted_extra": ["Props/C03F.lean, Props/C04F.lean, Props/C05q.lean (QuantFl) and Props/C15F.lean take the standard model of floating-point arithmetic as a hypothesis (structure FlModel u: each + - x returns exact*(1+d), |d| <= u; FlModelU adds an absolute underflow term; FlModelX: representable exact results are returned exactly; max/min exact). That IEEE binary32/64 satisfies it with u = 2^-24 / 2^-53 absent overflow is assumed (Higham, Accuracy and Stability of Numerical Algorithms, Thm 2.2), not proved; the bit-level behaviour incl. NaN/inf is tied by the fbiquad correspondence over Lean Float32/Float, which trusts the Lean runtime's float primitives to be IEEE."],
+    "trusted_extra": ["Props/C03F.lean, Props/C04F.lean, Props/C05q.lean (QuantFl), Props/C15F.lean and Props/C15Fc.lean take the standard model of floating-point arithmetic as a hypothesis (structure FlModel u: each + - x returns exact*(1+d), |d| <= u; FlModelU adds an absolute underflow term; FlModelX: representable exact results are returned exactly; max/min exact). That IEEE binary32/64 satisfies it with u = 2^-24 / 2^-53 absent overflow is assumed (Higham, Accuracy and Stability of Numerical Algorithms, Thm 2.2), not proved; the bit-level behaviour incl. NaN/inf is tied by the fbiquad correspondence over Lean Float32/Float, which trusts the Lean runtime's float primitives to be IEEE."],
     "modules": ["C04", "C04F"],
     "families": ["biquad", "fbiquad"],
     "n_quick": 150000, "n_thorough": 1500000,
@@ -237,8 +237,8 @@ PROPS["C14"] = {
     "rule": "random f32/f64 streams cut two ways (0-length, granule, maximal and random blocks), all ten tap sets, cascade depths 0..=4, in place and separate",
 }
 PROPS["C15"] = {
-    "trusted_extra": ["Props/C03F.lean, Props/C04F.lean, Props/C05q.lean (QuantFl) and Props/C15F.lean take the standard model of floating-point arithmetic as a hypothesis (structure FlModel u: each + - x returns exact*(1+d), |d| <= u; FlModelU adds an absolute underflow term; FlModelX: representable exact results are returned exactly; max/min exact). That IEEE binary32/64 satisfies it with u = 2^-24 / 2^-53 absent overflow is assumed (Higham, Accuracy and Stability of Numerical Algorithms, Thm 2.2), not proved; the bit-level behaviour incl. NaN/inf is tied by the fbiquad correspondence over Lean Float32/Float, which trusts the Lean runtime's float primitives to be IEEE."],
-    "modules": ["C15", "C15spec", "C15F"],
+    "trusted_extra": ["Props/C03F.lean, Props/C04F.lean, Props/C05q.lean (QuantFl), Props/C15F.lean and Props/C15Fc.lean take the standard model of floating-point arithmetic as a hypothesis (structure FlModel u: each + - x returns exact*(1+d), |d| <= u; FlModelU adds an absolute underflow term; FlModelX: representable exact results are returned exactly; max/min exact). That IEEE binary32/64 satisfies it with u = 2^-24 / 2^-53 absent overflow is assumed (Higham, Accuracy and Stability of Numerical Algorithms, Thm 2.2), not proved; the bit-level behaviour incl. NaN/inf is tied by the fbiquad correspondence over Lean Float32/Float, which trusts the Lean runtime's float primitives to be IEEE."],
+    "modules": ["C15", "C15spec", "C15F", "C15Fc"],
     "families": ["hbf"],
     "n_quick": 3000, "n_thorough": 30000,
     "clauses_proved": [
@@ -246,17 +246,18 @@ PROPS["C15"] = {
         "after response_length() outputs of zero input every output is zero, stages and cascades, from any state (hbfdec_zero_after_response_length, hbfint_zero_after_response_length, *_cascade_zero_after_response_length, *_class versions for IEEE signed zeros)",
         "PUBLISHED SPEC for the exact (binary32) tap values over the rationals/reals, every depth 1..=4, both directions: taps are exactly the f32 values of the source literals (hbf_taps_are_binary32); the literal buffer model's impulse response is hbfCascadeFir (hbf_cascade_impulse_response_int/_dec); exactly symmetric, spans response_length()+1 samples, |DC - 1| < 1e-6 (hbf_cascade_symmetric, hbf_cascade_span, hbf_cascade_dc_gain); response = pure delay x real product of stage amplitudes (hbf_cascade_response_factorisation); pass band |gain - 1| <= 2.3e-7, ripple <= 2e-6 dB <= 3e-6 dB up to 0.4; stop band <= 1e-7 = -140 dB <= -138 dB from 0.6 to the high-rate Nyquist incl. all images (hbf_cascade_passband_ripple, hbf_cascade_stopband, hbf_cascade_spec_full_holds; tightness hbf_cascade_bounds_tight) -- certified by a kernel-run reflective interval checker on exact Chebyshev recurrences",
         "F32 EVALUATION (Props/C15F.lean), the stage model over the reals with the standard rounding model FlModel u, code's evaluation order (pair sum, times tap, left-to-right accumulation from zero; product l passes M-l+2 roundings): one symmetric-FIR output within sum_l g_{M-l+2} |(w[l]+w[2M-1-l]) t_l| of the exact value, tight (fhbf_symfir_error, fhbf_symfir_error_uniform, fhbf_symfir_error_tight); decimator and interpolator single outputs (fhbf_dec_output_error, fhbf_int_output_error; odd interpolator outputs are exact copies); BLOCK LEVEL: every output of every multi-block run from the zero state differs from the exact decimated convolution / convolution of the zero-stuffed input by at most the per-term bound, independent of run length (fhbf_dec_run_error, fhbf_int_run_error), uniform forms g_{M+4} (1/2 + sum|t|) B and g_{M+2} 2 sum|t| B for |x| <= B (fhbf_dec_run_error_uniform, fhbf_int_run_error_uniform); for the five published tap sets (the tied constants hbfTapsQ) in binary32: error <= c/2^24 * max|x| with c = 11, 8, 7, 7, 6 (decimator) and 14, 9, 7, 7, 6 (interpolator) (fhbf_dec_published_f32, fhbf_int_published_f32), so the C15spec figures hold for one f32 stage up to 8.4e-7 * max|x|",
+        "F32 CASCADES (Props/C15Fc.lean): HbfDecCascade / HbfIntCascade models of depth 0..4 over the reals, rounded run (FlModel 2^-24) against the exact run, from the zero state, ANY admissible block partition, |x| <= B: every output differs by at most E_d * B, E_d assembled by the recursion (A, D) -> (g A, eps (A + D) + g D) from the per-stage constants and the stages' l1 gains (fhbf_dec_cascade_error, fhbf_int_cascade_error, fhbf_cascade_exact_amplitude); numbers: E_d <= c_d / 2^24 with c = 11, 30, 57, 94 (decimating) and 14, 49, 111, 217 (interpolating, input-referred) for d = 1..4 (fhbf_cascade_constants, fhbf_dec_cascade_error_f32, fhbf_int_cascade_error_f32), i.e. at most -105 dB / -97 dB of full scale sample by sample (fhbf_cascade_error_db). Not proved: the transport of the exact real cascade to the rational cascades of C15spec along Rat.cast (same taps, same shapes, ring operations: by construction)",
     ],
     "clauses_explored": [
-        "the running f32 code on the real IEEE arithmetic: impulse response of the implementation on a dense frequency grid; stage = FIR to float rounding (native); propagation of the per-stage rounding terms through the cascades (formula in the header of Props/C15F.lean, not a theorem)",
+        "the running f32 code on the real IEEE arithmetic: impulse response of the implementation on a dense frequency grid; stage = FIR to float rounding (native)",
     ],
-    "level_text": "The FIR equivalence, zero-after-response-length and the complete published specification (symmetry, span, DC gain, pass-band ripple, stop-band attenuation incl. images) for the exact tap values are theorems; the effect of f32 rounding is bounded per stage under the standard model of floating-point arithmetic (an explicit hypothesis, see trusted base); cascade propagation of the rounding terms and the real IEEE arithmetic are explored only.",
+    "level_text": "The FIR equivalence, zero-after-response-length and the complete published specification (symmetry, span, DC gain, pass-band ripple, stop-band attenuation incl. images) for the exact tap values are theorems; the effect of f32 rounding is bounded per stage under the standard model of floating-point arithmetic (an explicit hypothesis, see trusted base); the real IEEE arithmetic is explored only.",
     "level_note": "Model as C14. The tap values are constants of the crate; they are dumped at run time and used by the model driver.",
     "rule": "frequency grid 2^12 (2^15 thorough) points over 0..high-rate Nyquist per cascade depth and direction; FIR check on random streams for all ten tap sets",
 }
 
 PROPS["C07"] = {
-    "modules": ["C07", "C07lock"],
+    "modules": ["C07", "C07lock", "C07region"],
     "families": ["rpll"],
     "n_quick": 200000, "n_thorough": 2000000,
     "clauses_proved": [
@@ -266,6 +267,7 @@ PROPS["C07"] = {
         "frequency-loop closed form and dead band: ff' = ff iff 2^(32+dt2) - 2^(sf-1) <= ff*dx < 2^(32+dt2) + 2^(sf-1) (rpll_ff_update, rpll_dead_band, rpll_dead_band_iff)",
         "NEGATION of the lock clause: dead-band orbit with 0.0162 turns phase error for ever (rpll_lock_phase_false_witness: F-C07-a); admissible configuration that never locks (rpll_never_locks_B, rpll_lock_full_false: F-C07-b)",
         "POSITIVE lock theorems (Props/C07lock.lean): on the whole admissible region the frequency loop is an autonomous recursion that never wraps and converges geometrically into its dead band within 2^(sf-dt2+5) updates: relative error of ff <= 2^(sf-dt2-33) + 2^-20 (rpll_ff_converges, rpll_ff_geometric); on the sub-region 3*2^dt2 < P <= 2^sp the coupled phase loop contracts globally and from update 2^(sf-dt2+5) + b on, for ever, every offset, both profiles, frequency and phase errors are within explicit envelopes envF, envP (rpll_locks_within_envelope); where those envelopes are below 1e-5 / 1e-3 the property's lock clause holds literally (rpll_lock_holds_where_envelope_small; example dt2 = 8, sf = 16, sp = 15, P = 4000, every offset: rpll_lock_example)",
+        "LOCK CLAUSE LITERALLY, ON A REGION (Props/C07region.lean): for every configuration in rpllRegion (a kernel-checked table of 224 (dt2, shift_frequency, shift_phase) triples, each with a period interval [Plo, Phi]; exactly the triples with sp - d >= 3 and sf - d <= 14) and every timestamp offset, both profiles: no panic, and after 2^(sf-dt2+5) + 2^(sp-dt2+5) updates and for ever the frequency is within relative 1e-5 and the phase within 1e-3 turns (rpll_lock_region); closed-form sub-region: d in 2..11, sp in {sf-1, sf}, sp - d >= 4, sf - d <= 14, max(8 or 12 times 2^d, 2^(sf+sp-d-19)) <= P <= 5/6 2^sp (sf - d <= 11) or 2^sp / 9 (rpllRegionClosed_sub, rpll_lock_region_closed). Proof: worst-case evaluation of the four envelope inequalities over a P interval (monotonicity of Qm, Lim, Nb, envF, envP in P), adaptive bisection with a soundness proof, one decide +kernel over about 8400 leaves. Coverage of the property's admissible region (uniform over the 470 triples, logarithmic in P): table 17.8%, closed form 12.9%; outside: sf - d >= 15 (frequency envelope above 1e-5 / dead-band offset above 1e-3: the finding classes), P <= 3*2^d and P > 2^sp (outside Good). None of the crate's seven test configurations lies inside the region (proved by decide)",
     ],
     "clauses_explored": [
         "lock within 2^(sf-dt2+5)+2^(sp-dt2+5) updates to 1e-5 / 1e-3 turns over the admissible region (native sweep, timestamps crossing the i32 boundary); misses are accepted only inside the two listed finding classes with their quantitative envelopes",
